@@ -164,6 +164,10 @@ fn cube_cost(cubes: &HashSet<Cube>, and_cost: i64) -> i64 {
 }
 
 fn exec(ctx: &mut Ctx, ev: &Ev) {
+    if ev.op.ends_with("-dense") {
+        // ints hold several triples here; see exec_dense
+        return exec_dense(ctx, ev);
+    }
     let n = ev.n;
     let (ac, xc, oc) = (ev.ints[0] as i64, ev.ints[1] as i64, ev.ints[2] as i64);
     let fs: Vec<Lut> = ev.tabs.iter().map(|t| Lut::from_blocks(n, t)).collect();
@@ -267,6 +271,168 @@ fn exec(ctx: &mut Ctx, ev: &Ev) {
             ctx.check("minimum-cost", cost == opt, ev, "cost", || format!("{}: returned forms {:?} cost {} but the optimum is {}", desc(), forms.iter().map(|e| e.to_string()).collect::<Vec<_>>(), cost, opt));
         }
         other => panic!("harness: unknown op {}", other),
+    }
+}
+
+/// A term of a returned form, reduced to what the cost model and the semantics need.
+#[derive(Clone, Copy, PartialEq, Eq, Hash, Debug)]
+struct Term {
+    ecube: bool,
+    a: u32,
+    b: u32,
+    sat: Mask,
+    lits: usize,
+}
+
+fn form_cost(form: &[Vec<Term>], ac: i64, xc: i64, oc: i64) -> i64 {
+    let mut used: HashSet<Term> = HashSet::new();
+    let mut ors = 0i64;
+    for out in form {
+        for t in out {
+            used.insert(*t);
+        }
+        ors += std::cmp::max(0, out.len() as i64 - 1);
+    }
+    used.iter().map(|t| if t.ecube { xc } else { ac } * gates(t.lits)).sum::<i64>() + oc * ors
+}
+
+fn covers(out: &[Term], f: Mask) -> bool {
+    out.iter().fold(0 as Mask, |m, t| m | t.sat) == f
+}
+
+/// A strictly cheaper valid form one step away (a term deleted from an output, a literal dropped from a cube, a
+/// term replaced by a term already used elsewhere), if there is one: a minimum-cost form has none.
+fn local_improvement(n: usize, form: &[Vec<Term>], fm: &[Mask], ac: i64, xc: i64, oc: i64) -> Option<(String, i64)> {
+    let base = form_cost(form, ac, xc, oc);
+    let mut all_used: Vec<Term> = form.iter().flatten().copied().collect::<HashSet<Term>>().into_iter().collect();
+    all_used.sort_by_key(|t| (t.ecube, t.a, t.b));
+    for j in 0..form.len() {
+        for k in 0..form[j].len() {
+            // delete
+            let mut f2: Vec<Vec<Term>> = form.to_vec();
+            f2[j].remove(k);
+            if covers(&f2[j], fm[j]) {
+                let c = form_cost(&f2, ac, xc, oc);
+                if c < base {
+                    return Some((format!("delete term {:?} from output {}", form[j][k], j), c));
+                }
+            }
+            // drop one literal of a cube
+            let t = form[j][k];
+            if !t.ecube {
+                for v in 0..n {
+                    let bit = 1u32 << v;
+                    if (t.a | t.b) & bit == 0 {
+                        continue;
+                    }
+                    let c2 = CubeM::new(t.a & !bit, t.b & !bit);
+                    let s = sat_mask(n, |a| c2.sat(a));
+                    if s & !fm[j] != 0 {
+                        continue;
+                    }
+                    let mut f2: Vec<Vec<Term>> = form.to_vec();
+                    f2[j][k] = Term { ecube: false, a: c2.pos, b: c2.neg, sat: s, lits: c2.lits() };
+                    let c = form_cost(&f2, ac, xc, oc);
+                    if c < base {
+                        return Some((format!("drop x{} from term {:?} of output {}", v, t, j), c));
+                    }
+                }
+            }
+            // replace by a term that is used anyway
+            for u in &all_used {
+                if *u == t || u.sat & !fm[j] != 0 {
+                    continue;
+                }
+                let mut f2: Vec<Vec<Term>> = form.to_vec();
+                f2[j][k] = *u;
+                if covers(&f2[j], fm[j]) {
+                    let c = form_cost(&f2, ac, xc, oc);
+                    if c < base {
+                        return Some((format!("replace term {:?} of output {} by the shared term {:?}", t, j, u), c));
+                    }
+                }
+            }
+        }
+    }
+    None
+}
+
+/// Dense multi-output instances (beyond the reach of the exact oracle): the same instance under several cost
+/// triples.  Monitors: validity of every returned form; no strictly cheaper neighbour (`local_improvement`); and
+/// dominance across triples — the form returned for triple t must not cost more, under t, than the form returned
+/// for another triple (every returned form is a valid form for every triple).  Both are necessary conditions of
+/// "the total cost is the minimum over all such two-level forms".
+fn exec_dense(ctx: &mut Ctx, ev: &Ev) {
+    let n = ev.n;
+    let sopes = ev.op == "sopes-dense";
+    let fs: Vec<Lut> = ev.tabs.iter().map(|t| Lut::from_blocks(n, t)).collect();
+    let fm: Vec<Mask> = ev.tabs.iter().map(|t| fmask(n, t)).collect();
+    let triples: Vec<(i64, i64, i64)> = ev.ints.chunks(3).map(|c| (c[0] as i64, c[1] as i64, c[2] as i64)).collect();
+    ctx.event(&format!("{}|n={}|outputs={}", ev.op, n, fs.len()), ev, true);
+    let size = 1usize << n;
+    let desc = |t: &(i64, i64, i64)| format!("{} n={} functions={:?} costs(and={},xor={},or={})", ev.op, n, fs.iter().map(|f| f.to_string()).collect::<Vec<_>>(), t.0, t.1, t.2);
+    let mut forms: Vec<Vec<Vec<Term>>> = Vec::new();
+    for t in &triples {
+        let r: Outcome<Vec<(Sop, Soes)>> = guard(|| {
+            if sopes {
+                optimize_sopes_mip(&fs, t.0 as i32, t.1 as i32, t.2 as i32)
+            } else {
+                optimize_sop_mip(&fs, t.0 as i32, t.2 as i32).into_iter().map(|s| (s, Soes::zero(n))).collect()
+            }
+        });
+        let got = match r {
+            Outcome::Returned(v) => v,
+            Outcome::Panicked(m) => {
+                ctx.violate("returns-a-form-per-function", ev, "panic", format!("{} panicked: {}", desc(t), m));
+                return;
+            }
+        };
+        if !ctx.check("returns-a-form-per-function", got.len() == fs.len(), ev, "count", || format!("{} returned {} forms", desc(t), got.len())) {
+            return;
+        }
+        let mut form: Vec<Vec<Term>> = Vec::new();
+        for (j, (sop, soes)) in got.iter().enumerate() {
+            let denotes = (0..size).all(|m| (sop.value(m) || soes.value(m)) == ((fm[j] >> m) & 1 == 1));
+            let mut out: Vec<Term> = Vec::new();
+            for c in sop.cubes() {
+                let m = CubeM::of(c);
+                out.push(Term { ecube: false, a: m.pos, b: m.neg, sat: sat_mask(n, |a| m.sat(a)), lits: m.lits() });
+            }
+            for c in soes.cubes() {
+                let m = EcubeM::of(c);
+                out.push(Term { ecube: true, a: m.vars, b: m.xnor as u32, sat: sat_mask(n, |a| m.sat(a)), lits: m.vars.count_ones() as usize });
+            }
+            let implicants = out.iter().all(|t| t.sat & !fm[j] == 0) && sop.cubes().iter().all(|c| !c.is_zero());
+            if !ctx.check("denotes-function", denotes && sop.num_vars() == n && soes.num_vars() == n, ev, "denotes", || format!("{}: output {} is {} | {} which is not the function", desc(t), j, sop, soes))
+                || !ctx.check("terms-are-implicants", implicants, ev, "implicant", || format!("{}: output {} uses a term that is not an implicant: {} | {}", desc(t), j, sop, soes))
+            {
+                return;
+            }
+            out.sort_by_key(|t| (t.ecube, t.a, t.b));
+            form.push(out);
+        }
+        ctx.checked("minimum-cost", 1);
+        if let Some((what, c)) = local_improvement(n, &form, &fm, t.0, t.1, t.2) {
+            let base = form_cost(&form, t.0, t.1, t.2);
+            ctx.violate("minimum-cost", ev, "local-improvement", format!("{}: the returned forms cost {} but a valid form of cost {} is one step away ({}): {:?}", desc(t), base, c, what,
+                got.iter().map(|(s, e)| format!("{} | {}", s, e)).collect::<Vec<_>>()));
+        }
+        forms.push(form);
+    }
+    for (i, t) in triples.iter().enumerate() {
+        let own = form_cost(&forms[i], t.0, t.1, t.2);
+        for (k, other) in forms.iter().enumerate() {
+            // an Soes part is only a legal answer for the sopes problem; all forms here come from the same problem
+            let c = form_cost(other, t.0, t.1, t.2);
+            ctx.checked("minimum-cost", 1);
+            if c < own {
+                ctx.violate("minimum-cost", ev, "dominated-by-the-answer-to-another-triple", format!(
+                    "{}: the returned forms cost {}, the forms returned for costs {:?} cost {} under these costs", desc(t), own, triples[k], c));
+            }
+        }
+        if own >= 100 {
+            ctx.cell_only("dense|total-cost>=100");
+        }
     }
 }
 
@@ -477,6 +643,37 @@ fn main() {
             push_related(&mut items, b1, b2, &mut rng);
         }
     }
+    // dense instances (random lists up to n = 4 with 1..3 outputs, as the property quantifies them): beyond the
+    // exact oracle; each instance under 3 cost triples, one of them with and = 3 and a unit or/xor cost (large
+    // totals, forms that differ by a single gate)
+    let dense = if thorough { 400000 } else { 3000 };
+    for k in 0..dense {
+        let n = if k % 4 == 0 { 3 } else { 4 };
+        let outs = if k % 3 == 0 { 2 } else { 3 };
+        let mask = (1u64 << (1u64 << n)) - 1;
+        let fs: Vec<u64> = (0..outs)
+            .map(|_| loop {
+                let f = match rng.below(3) {
+                    0 => rng.next_u64(),
+                    1 => rng.next_u64() | rng.next_u64(),
+                    _ => rng.next_u64() & rng.next_u64(),
+                } & mask;
+                if f != 0 {
+                    break f;
+                }
+            })
+            .collect();
+        let heavy = [(3i64, 1i64, 1i64), (3, 2, 1), (3, 1, 2), (3, 3, 1), (3, 1, 3), (3, 2, 2)][rng.below(6)];
+        let ts = [heavy, *rng.pick(&triples), *rng.pick(&triples)];
+        let mut ev = Ev::new(["sopes-dense", "sop-dense"][(k % 5 == 4) as usize], "mip", n);
+        for t in ts {
+            ev = ev.int64(t.0 as u64).int64(t.1 as u64).int64(t.2 as u64);
+        }
+        for f in &fs {
+            ev = ev.tab(&[*f]);
+        }
+        items.push(ev);
+    }
     rng.shuffle(&mut items);
     let per = 64usize;
     let shards = (items.len() + per - 1) / per;
@@ -500,6 +697,9 @@ fn main() {
         }
         required.push(format!("{}|n=3|outputs=1", op));
         required.push(format!("{}|n=3|outputs=2", op));
+        if op != "esop" {
+            required.push(format!("{}-dense|n=4|outputs=3", op));
+        }
         if op != "esop" {
             required.push(format!("{}|n=3|outputs=3", op));
         }
